@@ -23,77 +23,100 @@ Proof.
   - simpl. rewrite HN. reflexivity.
 Qed.
 
-Lemma rollback_std_clean : forallb only_clean (rollback_std false) = true.
-Proof. reflexivity. Qed.
-Lemma rollback_std_cleans r status : cleans (rollback_std r) status = true.
-Proof. unfold rollback_std, cleans, is_perm. simpl. destruct (status =? 1); reflexivity. Qed.
+Lemma rollback_std_clean c : forallb only_clean (rollback_std c false) = true.
+Proof. unfold rollback_std. destruct (g_rb2 c); reflexivity. Qed.
+Lemma rollback_std_cleans c r status : (is_perm status = true \/ g_rb2 c = true) -> cleans (rollback_std c r) status = true.
+Proof.
+  unfold rollback_std, cleans, is_perm. intros [H|H].
+  - simpl. rewrite H. reflexivity.
+  - rewrite H. simpl. destruct (status =? 1); reflexivity.
+Qed.
 
 (* CalcKriging: every option except DGM (all targets or single target) *)
 Lemma wf_kriging c gout din dout :
-  g_dgm c = false ->
+  g_dgm c = false -> (g_single c < 0 \/ g_rb2 c = true) ->
   expand_noop L_F din dout = true -> expand_noop L_NOSTAT din dout = true ->
   wf_atomic (kriging c gout) din dout = true.
 Proof.
-  intros Hd HF HN.
-  assert (Hpre : forallb (safe_op (rollback_std false) din dout) (kriging_pre c gout) = true).
+  intros Hd Hs HF HN.
+  assert (Hst : cleans (rollback_std c false) (if 0 <=? g_single c then 2 else 1) = true).
+  { apply rollback_std_cleans. destruct Hs as [Hs|Hs]; [|right; exact Hs].
+    left. assert ((0 <=? g_single c) = false) as -> by (apply Z.leb_gt; exact Hs). reflexivity. }
+  assert (Hpre : forallb (safe_op (rollback_std c false) din dout) (kriging_pre c gout) = true).
   { unfold kriging_pre. rewrite Hd. simpl. rewrite !forallb_app.
-    repeat (apply andb_true_intro; split); try (apply forallb_if; simpl; destruct (0 <=? g_single c); reflexivity); try reflexivity.
+    repeat (apply andb_true_intro; split); try (apply forallb_if; cbn [forallb safe_op Z.ltb Z.compare andb]; rewrite Hst; reflexivity); try reflexivity.
     apply pre_interp_safe; assumption. }
   assert (Hpost : forallb cannot_fail (kriging_post c) = true).
   { unfold kriging_post. rewrite Hd. split_ifs; reflexivity. }
   unfold wf_atomic.
+  change (k_init (kriging c gout)) with (@nil op).
   change (k_pre (kriging c gout)) with (kriging_pre c gout).
   change (k_run (kriging c gout)) with [OBody 3].
   change (k_post (kriging c gout)) with (kriging_post c).
-  change (k_rollback (kriging c gout)) with (rollback_std (g_dgm c)).
+  change (k_rollback (kriging c gout)) with (rollback_std c (g_dgm c)).
   rewrite Hd, Hpre, Hpost, rollback_std_clean. reflexivity.
 Qed.
 
 Lemma wf_migrate c din dout : wf_atomic (migrate c) din dout = true.
 Proof.
-  unfold wf_atomic, migrate; simpl. destruct (g_locate c); reflexivity.
+  unfold wf_atomic, migrate; cbn [k_init k_pre k_run k_post k_rollback is_nil].
+  rewrite rollback_std_clean. cbn [forallb safe_op Z.ltb Z.compare andb].
+  rewrite (rollback_std_cleans c false 1) by (left; reflexivity). destruct (g_locate c); reflexivity.
 Qed.
 
 Lemma wf_stats c gout din dout : wf_atomic (stats c gout) din dout = true.
 Proof.
-  unfold wf_atomic, stats; simpl. destruct (g_mode c =? 0); reflexivity.
+  unfold wf_atomic, stats; cbn [k_init k_pre k_run k_post k_rollback is_nil].
+  rewrite rollback_std_clean.
+  destruct (g_mode c =? 0); cbn [forallb safe_op Z.ltb Z.compare andb cannot_fail];
+    rewrite (rollback_std_cleans c false 1) by (left; reflexivity); reflexivity.
 Qed.
 
 Lemma wf_anam c din dout : wf_atomic (anam c) din dout = true.
 Proof.
-  unfold wf_atomic, anam; simpl. destruct (g_mode c =? 0); reflexivity.
+  unfold wf_atomic, anam; cbn [k_init k_pre k_run k_post k_rollback is_nil].
+  rewrite rollback_std_clean.
+  destruct (g_mode c =? 0); cbn [forallb safe_op Z.ltb Z.compare andb cannot_fail];
+    rewrite (rollback_std_cleans c false 1) by (left; reflexivity); reflexivity.
 Qed.
 
 Lemma wf_simpleint c din dout :
   expand_noop L_F din dout = true -> expand_noop L_NOSTAT din dout = true ->
   wf_atomic (simpleint c) din dout = true.
 Proof.
-  intros HF HN. unfold wf_atomic, simpleint; simpl.
-  rewrite !forallb_app. rewrite pre_interp_safe by assumption. simpl.
-  destruct (g_est c), (g_std c); reflexivity.
+  intros HF HN. unfold wf_atomic, simpleint; cbn [k_init k_pre k_run k_post k_rollback is_nil].
+  rewrite rollback_std_clean. rewrite !forallb_app. rewrite pre_interp_safe by assumption.
+  destruct (g_est c), (g_std c); cbn [forallb safe_op Z.ltb Z.compare andb cannot_fail app];
+    rewrite ?(rollback_std_cleans c false 1) by (left; reflexivity); reflexivity.
 Qed.
 
 (* CalcGridToGrid, including the auxiliary temporary variable of the "shrink" option *)
-Lemma wf_g2g c din dout : wf_atomic (g2g c) din dout = true.
+Lemma wf_g2g c din dout : (g_mode c <> 1 \/ g_rb2 c = true) -> wf_atomic (g2g c) din dout = true.
 Proof.
-  unfold wf_atomic, g2g; simpl. destruct (g_mode c =? 1); reflexivity.
+  intro H. unfold wf_atomic, g2g; cbn [k_init k_pre k_run k_post k_rollback is_nil].
+  rewrite rollback_std_clean.
+  destruct (g_mode c =? 1) eqn:E; cbn [forallb safe_op Z.ltb Z.compare andb cannot_fail];
+    rewrite (rollback_std_cleans c false 1) by (left; reflexivity); [|reflexivity].
+  destruct H as [H|H]; [apply Z.eqb_eq in E; contradiction|].
+  rewrite (rollback_std_cleans c false 2) by (right; exact H). reflexivity.
 Qed.
 
 Lemma wf_image c opkey din dout :
   expand_noop L_F din dout = true -> expand_noop L_NOSTAT din dout = true ->
   wf_atomic (image c opkey) din dout = true.
 Proof.
-  intros HF HN. unfold wf_atomic, image; simpl.
-  rewrite !forallb_app. rewrite pre_interp_safe by assumption. simpl.
-  destruct (g_mode c =? 0), (g_mode c =? 1); reflexivity.
+  intros HF HN. unfold wf_atomic, image; cbn [k_init k_pre k_run k_post k_rollback is_nil].
+  rewrite rollback_std_clean. rewrite !forallb_app. rewrite pre_interp_safe by assumption.
+  destruct (g_mode c =? 0), (g_mode c =? 1); cbn [forallb safe_op Z.ltb Z.compare andb cannot_fail];
+    rewrite (rollback_std_cleans c false 1) by (left; reflexivity); reflexivity.
 Qed.
 
 Lemma wf_global c gout din dout :
   expand_noop L_F din dout = true -> expand_noop L_NOSTAT din dout = true ->
   wf_atomic (global c gout) din dout = true.
 Proof.
-  intros HF HN. unfold wf_atomic, global; simpl.
-  rewrite pre_interp_safe by assumption. reflexivity.
+  intros HF HN. unfold wf_atomic, global; cbn [k_init k_pre k_run k_post k_rollback is_nil].
+  rewrite rollback_std_clean. rewrite pre_interp_safe by assumption. reflexivity.
 Qed.
 
 (* ------------------------------------------------------------------ conditions of the success theorem *)
@@ -171,13 +194,13 @@ Lemma kriging_no_variable c gout din dout fs fk :
   g_neigh_only c = false -> locnum din L_Z = 0 ->
   failing_stage (kriging c gout) (init_st din dout false) fs fk = 1 /\
   calc_run (kriging c gout) (init_st din dout false) fs fk =
-    (false, exec_quiet (g_nc c) (rollback_std (g_dgm c)) (init_st din dout false)).
+    (false, exec_quiet (g_nc c) (rollback_std c (g_dgm c)) (init_st din dout false)).
 Proof.
   intros Hn Hz.
   assert (Hc : k_check (kriging c gout) (init_st din dout false) = false).
   { change (k_check (kriging c gout)) with (kriging_check c gout). unfold kriging_check.
     change (getdb WIn (init_st din dout false)) with din. rewrite Hn, Hz. simpl. apply andb_false_r. }
-  unfold failing_stage, calc_run. rewrite Hc. simpl. split; reflexivity.
+  unfold failing_stage, calc_run. change (k_init (kriging c gout)) with (@nil op). cbn [exec_quiet]. rewrite Hc. simpl. split; reflexivity.
 Qed.
 
 (* ------------------------------------------------------------------ simulations: variables created with the SIMU locator *)
@@ -210,33 +233,41 @@ Proof.
   assert (Hpost : forall s, TrackedT tch_simu (k_rollback (simfft c gout)) din dout s ->
                             fst (exec_ops (k_nc (simfft c gout)) (k_post (simfft c gout)) s None) = true).
   { intros s _. apply exec_ops_cannot_fail. reflexivity. }
-  exact (atomic_touched (simfft c gout) tch_simu din dout fs fk s' Hi Ho eq_refl Hti Hto Hpre eq_refl eq_refl Hpost Hfs Hrun).
+  exact (atomic_touched (simfft c gout) tch_simu din dout fs fk s' Hi Ho eq_refl Hti Hto eq_refl Hpre eq_refl (rollback_std_clean c) Hpost Hfs Hrun).
 Qed.
 
 Lemma simtub_atomic c gout din dout fs fk s' :
-  Inv din -> Inv dout -> g_dgm c = false ->
+  Inv din -> Inv dout -> g_dgm c = false -> (g_has_in c = false \/ g_rb2 c = true) ->
   getloc (d_locs din) L_SIMU = [] -> getloc (d_locs dout) L_SIMU = [] ->
   expand_noop L_F din dout = true -> expand_noop L_NOSTAT din dout = true -> fs <> 4 ->
   calc_run (simtub c gout) (init_st din dout false) fs fk = (false, s') ->
   (db_eq (s_in s') din /\ Inv (s_in s')) /\ (db_eq (s_out s') dout /\ Inv (s_out s')).
 Proof.
-  intros Hi Ho Hd Si So HF HN Hfs Hrun.
+  intros Hi Ho Hd Hrb2 Si So HF HN Hfs Hrun.
   assert (Hti : forall t, tch_simu t = true -> getloc (d_locs din) t = []).
   { intros t Ht. apply Z.eqb_eq in Ht. subst t. exact Si. }
   assert (Hto : forall t, tch_simu t = true -> getloc (d_locs dout) t = []).
   { intros t Ht. apply Z.eqb_eq in Ht. subst t. exact So. }
   assert (Hpre : forallb (safe_opT tch_simu (k_rollback (simtub c gout)) din dout) (k_pre (simtub c gout)) = true).
-  { simpl. rewrite Hd. simpl. rewrite !forallb_app. rewrite pre_interp_safeT by assumption.
-    destruct (g_has_in c); reflexivity. }
-  assert (Hrb : forallb only_clean (k_rollback (simtub c gout)) = true) by (simpl; rewrite Hd; reflexivity).
+  { cbn [k_pre k_rollback simtub]. rewrite Hd. cbn [andb app]. rewrite !forallb_app. rewrite pre_interp_safeT by assumption.
+    assert (Hout : forallb (safe_opT tch_simu (rollback_std c false) din dout)
+                     [OAdd WOut 1 L_SIMU (K (g_mnvar c * g_nbsimu c)) (Cst 0) 0%nat] = true).
+    { cbn [forallb safe_opT]. rewrite (rollback_std_cleans c false 1) by (left; reflexivity). reflexivity. }
+    rewrite Hout. rewrite andb_true_r. cbn [andb]. destruct Hrb2 as [H|H].
+    - rewrite H. reflexivity.
+    - destruct (g_has_in c); [|reflexivity]. cbn [forallb safe_opT].
+      rewrite (rollback_std_cleans c false 2) by (right; exact H). reflexivity. }
+  assert (Hrb : forallb only_clean (k_rollback (simtub c gout)) = true).
+  { cbn [k_rollback simtub]. rewrite Hd. apply rollback_std_clean. }
   assert (Hpost : forall s, TrackedT tch_simu (k_rollback (simtub c gout)) din dout s ->
                             fst (exec_ops (k_nc (simtub c gout)) (k_post (simtub c gout)) s None) = true).
-  { intros s T. simpl k_post. simpl k_nc. rewrite Hd. simpl app.
+  { intros s T. cbn [k_post k_nc simtub]. rewrite Hd. rewrite app_nil_r.
     assert (T1 : TrackedT tch_simu (k_rollback (simtub c gout)) din dout (clean_variables 2 s)).
     { apply (exec_op_safeT din dout Hi Ho tch_simu eq_refl Hti Hto _ (g_nc c) (OClean 2) s true); [exact T | reflexivity | reflexivity]. }
-    cbn [exec_ops exec_op option_map].
-    rewrite (expand_noop_sameT din dout tch_simu eq_refl _ L_F _ T1 HF eq_refl).
-    rewrite (expand_noop_sameT din dout tch_simu eq_refl _ L_NOSTAT _ T1 HN eq_refl).
-    reflexivity. }
-  exact (atomic_touched (simtub c gout) tch_simu din dout fs fk s' Hi Ho eq_refl Hti Hto Hpre eq_refl Hrb Hpost Hfs Hrun).
+    destruct (ver_bit c 1); cbn [app exec_ops exec_op option_map].
+    - reflexivity.
+    - rewrite (expand_noop_sameT din dout tch_simu eq_refl _ L_F _ T1 HF eq_refl).
+      rewrite (expand_noop_sameT din dout tch_simu eq_refl _ L_NOSTAT _ T1 HN eq_refl).
+      reflexivity. }
+  exact (atomic_touched (simtub c gout) tch_simu din dout fs fk s' Hi Ho eq_refl Hti Hto eq_refl Hpre eq_refl Hrb Hpost Hfs Hrun).
 Qed.
